@@ -110,7 +110,7 @@ func TestC09(t *testing.T) {
 	c := ev.For("C09")
 	defer c.Done()
 	c09Rule(c)
-	rapid.Check(t, func(rt *rapid.T) {
+	checkRapid(t, c, func(rt *rapid.T) {
 		c.Eval()
 		g := gen.New(rt, 2000)
 		switch gen.Pick(rt, "what", 8) {
